@@ -123,11 +123,12 @@ def C14(tier):
                 functions=['myth_once_body', 'myth_once_try_set', 'myth_once_wait_until'])
 
 
+KEYTAB64 = dict(text_patches=[[r'myth_tls_tree_depth = 3,', 'myth_tls_tree_depth = 1,']])
 A_ASSUME = ['malloc/mmap never fail (--no-malloc-may-fail)', 'environment functions are nondeterministic stubs constrained only by their documented contract (listed per harness)']
-def ajob(name, src, defs=(), unwind=6, timeout=1200, mem_gb=10, replace_calls=(), bounds=None, extra=(), wrap='MYTH_WRAP_VANILLA', note='', remove_bodies=(), func=None, sat=None):
+def ajob(name, src, defs=(), unwind=6, timeout=1200, mem_gb=10, replace_calls=(), bounds=None, extra=(), wrap='MYTH_WRAP_VANILLA', note='', remove_bodies=(), func=None, sat=None, cfg=None):
     b = dict(unwind=unwind); b.update(bounds or {})
     return Job(name, 'A', src=src, defs=list(defs), cbmc=['--unwind', str(unwind)] + list(extra), timeout=timeout, mem_gb=mem_gb,
-               replace_calls=list(replace_calls), bounds=b, wrap=wrap, note=note, remove_bodies=list(remove_bodies), func=func, sat=sat)
+               replace_calls=list(replace_calls), bounds=b, wrap=wrap, note=note, remove_bodies=list(remove_bodies), func=func, sat=sat, cfg=cfg)
 
 def C20(tier):
     src = 'harness/C20_time.c'; rc = ['myth_yield_ex_body:stub_yield_ex']
@@ -145,20 +146,127 @@ def C20(tier):
 
 def C11(tier):
     src = 'harness/C11_destructors.c'
-    jobs = [ajob('dtor.k2', src, ['-DNK=2', '-DNPOOL=7', '-DLPOOL=2'], unwind=18, timeout=1500, bounds=dict(keys='2 symbolic keys over all 1024 indices, destructor present/absent and value NULL/non-NULL symbolic')),
-            ajob('dtor.k2.leak', src, ['-DNK=2', '-DNPOOL=7', '-DLPOOL=2', '-DLEAK=1'], unwind=18, timeout=1500, bounds=dict(keys='2 symbolic keys, additionally all heap nodes released'))]
+    jobs = []
+    # the two keys range over all 1024 indices; the query is case-split on the root-level branch of each key (16 sub-queries)
+    for r0 in range(4):
+        for r1 in range(4):
+            jobs.append(ajob('dtor.k2.r%d%d' % (r0, r1), src, ['-DNK=2', '-DNPOOL=9', '-DLEAK=1', '-DR0=%d' % r0, '-DR1=%d' % r1], unwind=18, timeout=2400, mem_gb=6,
+                             bounds=dict(keys='2 symbolic keys with (k0>>8, k1>>8) = (%d,%d); union over the 16 sub-queries = all pairs of the 1024 indices; destructor present/absent and value NULL/non-NULL symbolic; all heap nodes released' % (r0, r1))))
     if tier == 'thorough':
-        jobs += [ajob('dtor.k3', src, ['-DNK=3', '-DNPOOL=10', '-DLPOOL=3'], unwind=18, timeout=7200, mem_gb=24, bounds=dict(keys='3 symbolic keys over all 1024 indices'))]
-    return dict(jobs=jobs, assumptions=A_ASSUME + ['tree nodes come from typed static pools standing for real_malloc; the embedded pre-allocation pool is put into its valid state "exhausted" (its bump arithmetic is covered by C10 tree.embedded)',
+        jobs += [ajob('dtor.k3.r012', src, ['-DNK=3', '-DNPOOL=13', '-DR0=0', '-DR1=1', '-DKLO=1024'], unwind=18, timeout=7200, mem_gb=24, bounds=dict(keys='3 symbolic keys, k0 in [0,256), k1 in [256,512), k2 anywhere'))]
+    return dict(jobs=jobs, assumptions=A_ASSUME + ['tree nodes come from a typed static pool standing for real_malloc; the embedded pre-allocation pool is put into its valid state "exhausted"',
+                                                 'mechanical type patches on the preprocessed copy: entries[1] struct hack gets its real extent; the anonymous union {children, entries} becomes a struct (the code never puns between the two views)',
                                                  'a destructor call with a NULL value is not counted as a violation (the statement does not forbid it)'],
                 functions=['myth_tls_tree_set', 'myth_tls_tree_fini', 'myth_tls_call_destructors', 'myth_tls_call_destructors_rec', 'myth_tls_tree_destroy', 'myth_tls_tree_destroy_rec', 'myth_tls_tree_node_free'])
 
 def C10(tier):
-    jobs = [ajob('tree.k2', 'harness/C10_tree.c', ['-DNK=2', '-DNPOOL=8', '-DLPOOL=3'], unwind=18, timeout=1500, bounds=dict(keys='2 stored keys + 1 queried key, each symbolic in [-2, 1025]')),
-            ajob('keyalloc.seq', 'harness/C10_keyalloc_seq.c', [], unwind=6, timeout=900, bounds=dict(state='arbitrary free list of two cells, all other cells live; 6 operations'))]
+    jobs = [ajob('tree.k2', 'harness/C10_tree.c', ['-DNK=2', '-DNPOOL=9'], unwind=18, timeout=1500, bounds=dict(keys='2 stored keys + 1 queried key, each symbolic in [-2, 1025]')),
+            ajob('keyalloc.seq.a5', 'harness/C10_keyalloc_seq.c', ['-DKA_A=5', '-DKA_B=63'], unwind=6, timeout=900, cfg=KEYTAB64, bounds=dict(key_table='scaled to 64 cells by patching the enumerator myth_tls_tree_depth 3 -> 1 in the preprocessed copy (the allocator code is unchanged and parametric in the table size; the full 16 KB table ran the SAT instance out of memory)', state='free list [5,63], all other cells live; deleted key symbolic over {5, 1023, any out-of-range int}; 6 operations')),
+            ajob('keyalloc.seq.a0', 'harness/C10_keyalloc_seq.c', ['-DKA_A=0', '-DKA_B=17'], unwind=6, timeout=900, cfg=KEYTAB64, bounds=dict(key_table='scaled to 64 cells (see keyalloc.seq.a5)', state='free list [0,17]; deleted key symbolic over {0, 256, any out-of-range int}'))]
     if tier == 'thorough':
-        jobs += [ajob('tree.k3', 'harness/C10_tree.c', ['-DNK=3', '-DNPOOL=10', '-DLPOOL=4'], unwind=18, timeout=7200, mem_gb=24, bounds=dict(keys='3 stored keys + 1 queried key'))]
+        jobs += [ajob('tree.k3', 'harness/C10_tree.c', ['-DNK=3', '-DNPOOL=13'], unwind=18, timeout=7200, mem_gb=24, bounds=dict(keys='3 stored keys + 1 queried key'))]
     return dict(jobs=jobs, assumptions=A_ASSUME + ['tree nodes come from typed static pools standing for real_malloc'],
                 functions=['myth_tls_tree_get', 'myth_tls_tree_set', 'myth_tls_tree_init', 'myth_tls_key_allocator_alloc', 'myth_tls_key_allocator_dealloc'])
 
-SPECS = {'C04': C04, 'C20': C20, 'C11': C11, 'C10': C10, 'C05': C05, 'C06': C06, 'C07': C07, 'C08': C08, 'C09': C09, 'C14': C14}
+
+def C15(tier):
+    Ls = [4, 5] if tier == 'quick' else [5, 6, 7]
+    jobs = [ajob('cpulist.L%d' % l, 'harness/C15_cpulist.c', ['-DL=%d' % l, '-DNOUT=3'], unwind=max(l + 5, 12), timeout=3000 if tier == 'quick' else 14000, mem_gb=16, extra=['--object-bits', '12'],
+                 bounds=dict(string='every byte string of length <= %d, or unset' % l, output_capacity=3)) for l in Ls]
+    jobs.append(ajob('envdefaults', 'harness/C15_envdefaults.c', [], unwind=24, timeout=600, bounds=dict(values='atoi result arbitrary int; CPU count in [1,4096]')))
+    return dict(jobs=jobs, assumptions=A_ASSUME + ['getenv returns an arbitrary NUL-terminated byte string of bounded length (or NULL); isdigit is the C-locale table; fprintf/fputc are no-ops',
+                                                 'atoi is an arbitrary int (what the caller does with the value is the subject)', 'signed overflow of >9-digit numbers is outside the bound (strings <= 7 bytes)'],
+                functions=['myth_parse_cpu_list', 'parse_range_list', 'parse_range', 'parse_int', 'next_char', 'cur_char', 'parse_error', 'int_list_add',
+                           'myth_globalattr_init_body', 'myth_globalattr_default_stacksize', 'myth_globalattr_default_guardsize', 'myth_globalattr_default_num_workers'])
+
+
+def C17(tier):
+    N = 4 if tier == 'quick' else 5
+    jobs = [ajob('cjm.n%d' % N, 'harness/C17_cjm.c', ['-DNMAX=%d' % N], unwind=2 * N + 5, timeout=3000, mem_gb=16,
+                 replace_calls=['myth_create_ex_body:stub_create', 'myth_join_body:stub_join'],
+                 bounds=dict(n='symbolic in [0,%d]' % N, strides='arg/result/id/func stride symbolic in {8,16}, attr stride {1,2} x sizeof(attr); ids/results/attrs NULL or not; many and various variants'))]
+    return dict(jobs=jobs, assumptions=A_ASSUME + ['myth_create_ex_body is replaced by "run the child to completion now", myth_join_body by a no-op that delivers the recorded result (the concurrent create/join protocol is C01)'],
+                functions=['myth_create_join_various_ex_body', 'myth_create_join_many_ex_body', 'myth_create_join_various_ex_aux'])
+
+
+def C12(tier):
+    names = ['custom_size_cycle', 'two_live_custom', 'default_size', 'descriptors']
+    jobs = [ajob('stack.%s' % names[i], 'harness/C12_stackalloc.c', ['-DSCEN=%d' % i], unwind=33, timeout=1800, extra=['--unwindset', 'myth_flmalloc.0:1'],
+                 bounds=dict(size='every size in [1, 2^30-4096] (symbolic)', allocations='<= 4 mmap calls')) for i in range(4)]
+    return dict(jobs=jobs, assumptions=A_ASSUME + ['mmap returns a fresh page-aligned object of the requested length', 'sizes above 2^30 (int shift in MYTH_MALLOC_INDEX_TO_RSIZE) are outside the claim'],
+                functions=['get_new_myth_thread_struct_stack', 'free_myth_thread_struct_stack', 'get_new_myth_thread_struct_desc', 'free_myth_thread_struct_desc', 'myth_flmalloc', 'myth_flfree', 'myth_freelist_push', 'myth_freelist_pop'])
+
+
+C16_RC = ['myth_mutex_lock_body:sb_mutex_lock', 'myth_mutex_trylock_body:sb_mutex_trylock', 'myth_mutex_unlock_body:sb_mutex_unlock',
+          'myth_spin_lock_body:sb_spin_lock', 'myth_spin_trylock_body:sb_spin_trylock', 'myth_spin_unlock_body:sb_spin_unlock',
+          'myth_cond_wait_body:sb_cond_wait', 'myth_cond_signal_body:sb_cond_signal', 'myth_cond_broadcast_body:sb_cond_broadcast',
+          'myth_barrier_wait_body:sb_barrier_wait', 'myth_once_body:sb_once', 'myth_join_body:sb_join', 'myth_tryjoin_body:sb_tryjoin',
+          'myth_detach_body:sb_detach', 'myth_create_ex_body:sb_create_ex', 'myth_key_create_body:sb_key_create',
+          'myth_setspecific_body:sb_setspecific', 'myth_getspecific_body:sb_getspecific', 'myth_self_body:sb_self', 'myth_yield_body:sb_yield',
+          'myth_mutex_init_body:sb_mutex_init', 'myth_barrier_init_body:sb_barrier_init']
+def C16(tier):
+    jobs = [ajob('wrap.ep%d_%d' % (lo, hi), 'harness/C16_wrap.c', ['-DEP_LO=%d' % lo, '-DEP_HI=%d' % hi], unwind=24, timeout=1500, wrap='MYTH_WRAP_LD',
+                 replace_calls=C16_RC, bounds=dict(entry_points='%d..%d of 24, each with MYTH_WRAP_PTHREAD in {0, unset, 1}' % (lo, hi)))
+            for lo, hi in ((1, 6), (7, 14), (15, 16), (17, 24))]
+    return dict(jobs=jobs, assumptions=A_ASSUME + ['reference = the POSIX return/forwarding contract of each call, written in the harness (the system library itself cannot be encoded)',
+                'myth_*_body functions are replaced by stubs returning any value their own contract allows (e.g. retry counts); their behaviour is verified in C01, C04-C06, C10, C11, C13, C14, C20',
+                'real_* functions are recording stubs'],
+                functions=['__wrap_pthread_* entry points of src/myth_wrap_pthread.c (24 of them)', 'pthread_attr_to_myth', 'pthread_mutexattr_to_myth', 'myth_handle_PTHREAD_MUTEX_INITIALIZER', 'myth_should_wrap_pthread', 'myth_thread_attr_init_body'])
+
+
+DEQUE_ASSUME = [
+    'engine B on the real deque, the REAL spinlock (CAS loop + xchg fence) and the real fence functions; fences are classified from their asm template (xchg/mfence = full fence, empty/lfence/sfence = no-op under TSO)',
+    'preempt=all: every shared load/store is a possible preemption point',
+    'x86-TSO jobs: one pending store per thread on the statically addressed scalars (top, base, lock word); other stores commit the pending one first (FIFO); buffer depth 1 is the bound',
+    'capacity overridden to a small value (#undef/#define INITIAL_QUEUE_SIZE after including the real myth_config.h); the queue state is constructed directly (myth_queue_init is checked separately)',
+    'at most R scheduling segments per thread']
+def C02(tier):
+    src = 'harness/C02_deque.c'
+    def dj(name, mode, threads, rounds, tso, cap=8, timeout=1800, mem=10):
+        return bjob(name, src, threads, rounds, ['-DMODE=%d' % mode, '-DCAP=%d' % cap], preempt='all', tso=tso, timeout=timeout, mem_gb=mem,
+                    delete=['empty_loop'], special={}, extra_cfg=dict(env_model=None), bounds=dict(capacity=cap))
+    T2 = ['t0', 't1']; T3 = ['t0', 't1', 't2']
+    jobs = [dj('deque.pushpop_take.sc.r3', 0, T2, 3, False), dj('deque.pushpop_take.tso.r3', 0, T2, 3, True),
+            dj('deque.push_take2.tso.r3', 1, T2, 3, True), dj('deque.pop_take_take.tso.r3', 3, T3, 3, True)]
+    if tier == 'thorough':
+        jobs += [dj('deque.pushpop_take.tso.r5', 0, T2, 5, True, timeout=7200, mem=20), dj('deque.3elem.tso.r4', 2, T2, 4, True, timeout=7200, mem=20),
+                 dj('deque.recentre_push.tso.r3', 4, T2, 3, True, cap=4, timeout=7200, mem=20), dj('deque.recentre_put.tso.r3', 5, T2, 3, True, cap=4, timeout=7200, mem=20),
+                 dj('deque.trypass.tso.r3', 6, T2, 3, True, timeout=7200, mem=20), dj('deque.peek.tso.r3', 7, T2, 3, True, timeout=7200, mem=20),
+                 dj('deque.push_take2.sc.r4', 1, T2, 4, False, timeout=7200, mem=20)]
+    return dict(jobs=jobs, assumptions=DEQUE_ASSUME,
+                functions=['myth_queue_push', 'myth_queue_pop', 'myth_queue_take', 'myth_queue_put', 'myth_queue_trypass', 'myth_queue_peek', 'myth_spin_lock_body', 'myth_spin_trylock_body', 'myth_spin_unlock_body', 'myth_rwbarrier', 'myth_rbarrier', 'myth_wbarrier'])
+
+
+def _asmsmt(job, wd, res):
+    import vlib, json, os, sys, time
+    src = os.path.join(vlib.VERIF, job.src); ll = os.path.join(wd, 'probe.ll'); out = os.path.join(wd, 'asmsmt.json')
+    vlib.must(['clang-14', '-O1', '-S', '-emit-llvm', '-Dmyth_unreachable()='] + vlib.CPPFLAGS + ['-DMYTH_WRAP=MYTH_WRAP_VANILLA', '-w', src, '-o', ll], 'clang (probe)')
+    rc, so, se, wall, rss = vlib.run(['python3-vt', os.path.join(vlib.VERIF, 'engines', 'asmsmt.py'), ll, out, str(job.cfg.get('nproc', 8))], timeout=job.timeout)
+    res.rss_kb = rss
+    if rc != 0 or not os.path.exists(out):
+        res.status = 'undecided' if rc == -9 else 'error'; res.detail = 'asmsmt rc=%d %s' % (rc, (se or so)[-800:]); return
+    d = json.load(open(out)); ob = d['obligations']
+    res.n_props = len(ob); res.n_ok = sum(1 for o in ob if o['status'] == 'holds'); res.solver_s = sum(o.get('solver_s', 0) for o in ob)
+    res.extra = dict(templates=d['templates'], constraints=d['constraints'], obligations=[dict(name=o['name'], status=o['status'], solver_s=o.get('solver_s')) for o in ob])
+    bad = [o for o in ob if o['status'] == 'violated']; unk = [o for o in ob if o['status'] not in ('holds', 'violated')]
+    wit = [o for o in ob if o.get('witness')]
+    if bad:
+        res.status = 'violated'
+        for o in bad[:6]: res.violations.append(dict(prop='asmsmt', desc='C03 ' + o['name'], loc='src/myth_context_func.h (inline asm template)', nd=[], trace=None, native=dict(ok=True, model=o.get('model'))))
+    elif unk: res.status = 'undecided'; res.detail = 'solver gave no verdict for: ' + '; '.join(o['name'] for o in unk[:3])
+    elif not wit: res.status = 'vacuous'; res.detail = 'no satisfiability witness'
+    else: res.status = 'holds'; res.witness = 'assumptions of all 8 save/resume combinations are satisfiable'
+
+def C03(tier):
+    jobs = [Job('ctxswitch.asm', 'C', src='harness/C03_probe.c', pyfunc=_asmsmt, timeout=2400, cfg=dict(nproc=8, no_native=True),
+                bounds=dict(templates='2 suspending forms x 4 resuming forms, all register and memory contents symbolic (64-bit bit-vectors, memory = array)', arch='x86-64 SysV, MYTH_INLINE_CONTEXT')),
+            ajob('ctxswitch.makectx', 'harness/C03_makectx.c', [], unwind=4, timeout=900, bounds=dict(stack_top='every offset in a 128 KB stack block'))]
+    return dict(jobs=jobs, level='other',
+                explanation='SMT (z3, bit-vectors + arrays, quantifier-free) proof obligations over a micro-semantics of the ~10 instruction forms occurring in the four real inline-asm context-switch templates, for ALL register/stack contents; plus cbmc on myth_make_context_*. Not bounded by loop unrollings; bounded by: x86-64 SysV, these 4 templates as clang emits them for the real macros.',
+                assumptions=['the callback obeys the SysV ABI (callee-saved registers and memory at/above its entry rsp preserved) and does not write saved context words',
+                             'stacks are disjoint blocks and context words do not lie on a stack range being pushed to (provided by C12); stack addresses are far from 0 and 2^47',
+                             'xmm/x87/mxcsr are outside (caller-saved or explicitly not saved: MYTH_SAVE_FPCSR 0); i386/aarch64/sparc variants outside',
+                             'memory-preservation facts are instantiated at the finitely many addresses the run reads (quantifier-free)'],
+                functions=['myth_swap_context_i', 'myth_swap_context_withcall_i', 'myth_set_context_i', 'myth_set_context_withcall_i', 'myth_make_context_empty', 'myth_make_context_voidcall'])
+
+SPECS = {'C04': C04, 'C20': C20, 'C03': C03, 'C02': C02, 'C16': C16, 'C12': C12, 'C17': C17, 'C15': C15, 'C11': C11, 'C10': C10, 'C05': C05, 'C06': C06, 'C07': C07, 'C08': C08, 'C09': C09, 'C14': C14}
